@@ -13,7 +13,6 @@ import (
 	"time"
 
 	"github.com/sheerbytes/sheerbytes/internal/app"
-	"github.com/sheerbytes/sheerbytes/internal/verifhook"
 	"github.com/sheerbytes/sheerbytes/verifharness/internal/graph"
 )
 
@@ -97,29 +96,27 @@ func (r *admRun) awaitTail() {
 		}
 	}
 }
-var admHookOnce sync.Once
 
 func admInstallHook() {
-	admHookOnce.Do(func() {
-		verifhook.Set(func(name string, a, b uint64, s string) {
-			r := admCurrent
-			if r == nil {
-				return
-			}
-			switch name {
-			case "host.emit.start":
-				r.mu.Lock()
-				r.emitted = append(r.emitted, "S:"+s)
-				r.mu.Unlock()
-			case "host.emit.queued":
-				r.mu.Lock()
-				r.emitted = append(r.emitted, "Q:"+s)
-				r.mu.Unlock()
-			case "host.transfer.done":
-				r.doneCh <- s
-			}
-		})
-	})
+	installHooks()
+	extraHook = func(name string, a, b uint64, s string) {
+		r := admCurrent
+		if r == nil {
+			return
+		}
+		switch name {
+		case "host.emit.start":
+			r.mu.Lock()
+			r.emitted = append(r.emitted, "S:"+s)
+			r.mu.Unlock()
+		case "host.emit.queued":
+			r.mu.Lock()
+			r.emitted = append(r.emitted, "Q:"+s)
+			r.mu.Unlock()
+		case "host.transfer.done":
+			r.doneCh <- s
+		}
+	}
 }
 
 func newAdmRun(max int, res *Result) *admRun {
